@@ -80,7 +80,9 @@ def main(argv=None):
 
     from pyvc import verify
     from vf import report
-    rep = report.Report(prop, a.tier, seed, mod, ROOT, REPO, selftest=a.selftest)
+    # partial (debug) runs and scratch-copy runs never touch the evidence / replay files
+    partial = a.no_prove or a.no_refute or os.path.realpath(REPO) != os.path.realpath('/repo')
+    rep = report.Report(prop, a.tier, seed, mod, ROOT, REPO, selftest=a.selftest or partial)
     known = load_known(prop)
 
     # ---------------- PROVE
